@@ -128,7 +128,8 @@ pub fn gen_conv(rng: &mut Rng, rep: &mut Report) -> Conv {
                 cv.push(MCmd::Init(ident(rng).into_bytes()), None)
             }
             49..=58 => {
-                let id = rng.next() as u32;
+                // any 32-bit id, the edges of the range as often as the middle
+                let id = if rng.chance(1, 3) { *rng.pick(&[0u32, 1, u32::MAX, u32::MAX - 1, 0x8000_0000, 0x7FFF_FFFF, 0x00FF_FFFF, 0x0100_0000]) } else { rng.next() as u32 };
                 let np = rng.below(3) as u16;
                 rep.counters.class("Prepare -> on_prepare".into());
                 let ok = rng.chance(4, 5);
